@@ -151,6 +151,9 @@ def coq_eval(exec_module, cases, workdir, timeout, tag="cases"):
     with ThreadPoolExecutor(max_workers=16) as ex:
         outs = list(ex.map(run1, files))
     for k, (rc, out) in enumerate(outs):
+        if rc and (rc < 0 or rc in (124, 137)):
+            # killed: wall-clock timeout or memory pressure on a loaded machine - run this shard once more, alone
+            outs[k] = (rc, out) = sh("ulimit -v 16000000 2>/dev/null; exec coqc -noglob -Q %s BSV %s" % (COQ, files[k]), cwd=workdir, timeout=timeout * 3)
         if rc:
             fail_machinery("coqc failed on %s (rc=%d):\n%s" % (files[k], rc, out[-3000:]))
         vals = re.findall(r'=\s*"((?:[^"]|"")*)"\s*:\s*string', out)
